@@ -242,7 +242,7 @@ def split_reply(line):
     return line, "(oracle none)"
 
 
-def corr_pass(chk, mode, lines, label, known_matcher=None, nontrivial=None, model_lines=None, engine="rs", oracle_filter=None, view=None, extra_oracle=None):
+def corr_pass(chk, mode, lines, label, known_matcher=None, nontrivial=None, model_lines=None, engine="rs", oracle_filter=None, view=None, extra_oracle=None, search=None):
     """Run impl and model on the same request lines; compare replies; consult the impl-side oracle.
     Returns stats dict. Classification (DESIGN.md §6):
       reply differs + oracle fail  -> violation with the request as failing input
@@ -310,6 +310,11 @@ def corr_pass(chk, mode, lines, label, known_matcher=None, nontrivial=None, mode
             else:
                 found_input = True
                 chk.violation(f"{label}:property-oracle-fails", f"{req}\n; impl:   {ir}\n; model:  {mr}\n; oracle: {orc_rel}\n; hypotheses violated: {hyps}")
+    if tie_broken and not found_input and search is not None:
+        # the correspondence broke on inputs where the property oracle is silent: look harder for a failing input
+        # (implementation + oracle only) before reporting the obligation as broken without one
+        found_input = bool(search(chk, tie_broken))
+        stats["searched"] = True
     if tie_broken and not found_input:
         req, ir, mr = tie_broken[0]
         chk.violation(f"{label}:correspondence-broken", f"{req}\n; impl:   {ir}\n; model:  {mr}\n; correspondence op `{label}` no longer checks ({len(tie_broken)} requests differ); the impl-side property oracle found no failing input", found_input=False)
@@ -319,6 +324,28 @@ def corr_pass(chk, mode, lines, label, known_matcher=None, nontrivial=None, mode
     if lines:
         chk.coverage["samples"].append({"op": label, "request": lines[0][:600], "impl_reply": split_reply(impl[0])[0][:300] if impl else None})
     return stats
+
+
+def impl_search(mode, gen, label, engine="js", oracle_filter=None, known_matcher=None):
+    """search callback for corr_pass: run the implementation alone on freshly generated requests and report every
+    oracle failure that is not a recorded finding as a violation with its input; returns the number found"""
+    def run(chk, tie_broken):
+        lines = gen(chk)
+        impl, rc, err = (chk.run_impl_js if engine == "js" else chk.run_impl)(mode, lines)
+        n = 0
+        for req, il in zip(lines, impl):
+            ir, orc = split_reply(il)
+            f = oracle_filter(orc) if oracle_filter else (None if orc.startswith("(oracle ok") or orc.startswith("(oracle none") else orc)
+            if f is None:
+                continue
+            if known_matcher and known_matcher(req, ir, f, ""):
+                continue
+            n += 1
+            if n <= 5:
+                chk.violation(f"{label}:property-oracle-fails", f"{req}\n; impl:   {ir}\n; oracle: {f}\n; found by the search that follows a broken correspondence ({len(tie_broken)} requests differed from the model)")
+        chk.coverage.setdefault("searches", []).append({"label": label, "requests": len(lines), "failing_inputs": n})
+        return n
+    return run
 
 
 def sx_parse(s):
